@@ -176,6 +176,13 @@ fn build_server(sh: &Arc<Shared>, limits: WebSocketLimits) -> WebSocketServer {
         })
         .on_peer_disconnect(move |id: PeerId| {
             x.log.push("disconnect-X", id.0);
+            // its own aliases are still there (losing "shared" to a later connection is fine)
+            if x.log.of_peer(id.0).iter().any(|e| e == "aliased") {
+                let al = x.reg.aliases_for(id);
+                if !al.contains(&format!("k{}", id.0)) || !al.contains(&format!("s{}", id.0)) || x.reg.get_by(&format!("s{}", id.0)).map(|p| p.peer_id()) != Some(id) {
+                    x.hook_faults.lock().unwrap().push(format!("peer {} lost its own aliases while connected: aliases_for = {al:?}", id.0));
+                }
+            }
             // registered before the registry's remove hook: the peer is still present
             if x.log.of_peer(id.0).iter().any(|e| e == "inserted") && x.reg.get(id).is_none() {
                 x.hook_faults.lock().unwrap().push(format!("peer {} vanished from the registry before its disconnect hooks ran", id.0));
@@ -196,6 +203,9 @@ fn build_server(sh: &Arc<Shared>, limits: WebSocketLimits) -> WebSocketServer {
                 b.peer_conn.lock().unwrap().insert(id, conn);
                 if b.mode == Mode::Adopted {
                     b.reg.alias(PeerId(id), format!("k{id}"));
+                    b.reg.alias(PeerId(id), format!("s{id}"));
+                    b.reg.alias(PeerId(id), "shared");
+                    b.log.push("aliased", id);
                     let act = b.connect_action(conn);
                     b.act(conn, act);
                 }
@@ -206,16 +216,19 @@ fn build_server(sh: &Arc<Shared>, limits: WebSocketLimits) -> WebSocketServer {
             h.log.push("handshake-H", id);
             let conn: u64 = hs.header("x-conn").and_then(|s| s.parse().ok()).unwrap_or(u64::MAX);
             h.peer_conn.lock().unwrap().insert(id, conn);
-            if !h.reg.alias(PeerId(id), format!("k{id}")) {
+            if !h.reg.alias(PeerId(id), format!("k{id}")) || !h.reg.alias(PeerId(id), format!("s{id}")) {
                 h.hook_faults.lock().unwrap().push(format!("alias for peer {id} refused although its insert hook has run"));
             }
+            // a key that moves: every new connection takes "shared" over from whoever holds it
+            h.reg.alias(PeerId(id), "shared");
+            h.log.push("aliased", id);
             let act = h.connect_action(conn);
             h.act(conn, act);
         })
         .on_peer_disconnect(move |id: PeerId| {
             y.log.push("disconnect-Y", id.0);
             // registered after the registry's remove hook: peer and aliases are gone
-            if y.reg.get(id).is_some() || y.reg.get_by(&format!("k{}", id.0)).is_some() {
+            if y.reg.get(id).is_some() || y.reg.get_by(&format!("k{}", id.0)).is_some() || y.reg.get_by(&format!("s{}", id.0)).is_some() || !y.reg.aliases_for(id).is_empty() || y.reg.get_by("shared").is_some_and(|p| p.peer_id() == id) {
                 y.hook_faults.lock().unwrap().push(format!("peer {} (or its alias) still in the registry after the remove hook", id.0));
             }
         })
@@ -609,9 +622,9 @@ fn c15_ws_lifecycle(case: &Case) {
                 sh.gate.open_all();
                 return;
             }
-            case.check(sh.reg.get(PeerId(*p)).is_none() && sh.reg.get_by(&format!("k{p}")).is_none(), "registry-residue", || format!("peer {p} (or alias k{p}) still registered after its disconnect hooks"));
+            case.check(sh.reg.get(PeerId(*p)).is_none() && sh.reg.get_by(&format!("k{p}")).is_none() && sh.reg.get_by(&format!("s{p}")).is_none() && sh.reg.aliases_for(PeerId(*p)).is_empty() && sh.reg.key_for(PeerId(*p)).is_none(), "registry-residue", || format!("peer {p} (or one of its aliases) still registered after its disconnect hooks: aliases_for = {:?}", sh.reg.aliases_for(PeerId(*p))));
         }
-        case.check(sh.reg.len() == 0, "registry-residue", || format!("{} peers left in the registry", sh.reg.len()));
+        case.check(sh.reg.len() == 0 && sh.reg.get_by("shared").is_none(), "registry-residue", || format!("{} peers left in the registry; 'shared' resolves: {}", sh.reg.len(), sh.reg.get_by("shared").is_some()));
         if let Some(f) = sh.hook_faults.lock().unwrap().first() {
             case.fail("registry-presence", f.clone());
         }
